@@ -1,6 +1,30 @@
-(* C04 - obligations proved so far: decimal integers print and parse back. *)
-From ES Require Import Base Text.Dec.
+(* C04 - parameter values survive print -> parse.  Proved: decimal integers; single-line string literals
+   (the form repr_string chooses for a string without line feed that is single-line exact).  The multi-line
+   forms, fixed-point numbers and position marks are decided on the real code (harness/checks/c04.py). *)
+From ES Require Import Base Text.Dec Text.Str Text.StrProofs.
 
 Theorem C04_int_roundtrip : forall z, parse_Z (print_Z z) = Some z.
 Proof. exact parse_print_Z. Qed.
 Print Assumptions C04_int_roundtrip.
+
+(* a string that is single-line exact and holds no line feed: the printed literal (either quote style) is one
+   STRING_LITERAL for the lexer, and reading it gives the string back *)
+Theorem C04_single_line_string_roundtrip : forall q s,
+  (q = DQ \/ q = SQ) -> single_exact s = true -> mem LF s = false ->
+  lex_body q (escape_quotes q s) = true /\ read_single (print_single q s) = s.
+Proof.
+  intros q s Hq He Hl. split; [apply single_lexes; assumption|].
+  destruct Hq; subst; [apply single_roundtrip_dq | apply single_roundtrip_sq]; exact He.
+Qed.
+Print Assumptions C04_single_line_string_roundtrip.
+
+(* non-vacuity: a string with both quotes, a backslash before an ordinary letter, blanks at both ends *)
+Example C04_string_example :
+  let s := s2t " it's \a ""q"" "%string in
+  single_exact s = true /\ mem LF s = false /\ read_single (print_single SQ s) = s.
+Proof. vm_compute. repeat split; reflexivity. Qed.
+
+(* the condition is needed: a backslash before the letter n is read as a line feed *)
+Example C04_inexact_string :
+  let s := [BS; LN] in single_exact s = false /\ read_single (print_single DQ s) <> s.
+Proof. vm_compute. split; [reflexivity | discriminate]. Qed.
